@@ -1205,7 +1205,11 @@ class SmtLibParser(object):
         """
         # Note: parsing can create new symbols, we need a snapshot
         symbols = dict(self.env.formula_manager.symbols)
-        self.cache.update(symbols)
+        # Function symbols are bound as in declare-fun: an application
+        # must not depend on the infix notation being enabled
+        self.cache.update(dict((k, functools.partial(self._function_call_helper, v)
+                                   if v.symbol_type().is_function_type() else v)
+                               for k, v in symbols.items()))
         tokens = Tokenizer(script, interactive=self.interactive)
         res = []
         self.consume_opening(tokens, "<main>")
